@@ -18,9 +18,16 @@ class raw_mutex_user {
     void f()
     {
         m.lock();
-        ++x;
+        x = work(x);     // may throw: the mutex stays locked
         m.unlock();
     }
+    void probe()
+    {
+        if (m.try_lock()) {
+            m.unlock();
+        }
+    }
+    static int work(int v) { return v + 1; }
 
   private:
     std::mutex m;
@@ -70,6 +77,47 @@ class erase_then_use {
 
   private:
     std::map<std::string, int> m;
+};
+
+// A8 lookup rule: the result of find() dereferenced without comparing it with end()
+class unchecked_find {
+  public:
+    int get(const std::string& k)
+    {
+        auto it = m.find(k);
+        return it->second;
+    }
+    int get_checked(const std::string& k)
+    {
+        auto it = m.find(k);
+        if (it == m.end()) {
+            return 0;
+        }
+        return it->second;
+    }
+
+  private:
+    std::map<std::string, int> m;
+};
+
+// A8 consumed-in-loop rule
+class move_in_loop {
+  public:
+    void broadcast(std::string&& v)
+    {
+        for (auto& s : sinks) {
+            s = std::move(v);
+        }
+    }
+    void drain(std::vector<std::string>& out)
+    {
+        for (auto& s : sinks) {
+            out.push_back(std::move(s));
+        }
+    }
+
+  private:
+    std::vector<std::string> sinks;
 };
 
 // A8 nullable-field rule: member pointer that a constructor can leave null,
